@@ -281,6 +281,19 @@ def _system(item):
         want = shadow.pid_sum_reference(df["bruttolohn_m"].tolist(), T[sp["p_id_to_aggregate_by"]].tolist(), df["p_id"].tolist())
         if not np.allclose(out[t].to_numpy().astype(float), np.array(want, dtype=float), rtol=1e-9, atol=1e-9):
             viol(f"{t}:user_over_builtin_p_id", f"user p_id spec for {t} (source bruttolohn_m) is not what was computed")
+    # after the calls with user specs: the built-in definitions must be back (no spec leaks into later calls)
+    agg_nodes = [t for t in nodes if kinds[t] in ("agg_group", "agg_pid")]
+    try:
+        again = env.simulate(df, params, functions, agg_nodes)
+        for t in agg_nodes:
+            a, b = T[t].to_numpy(), again[t].to_numpy()
+            if not (a.dtype == b.dtype and np.array_equal(a, b, equal_nan=a.dtype.kind == "f")):
+                viol(f"{t}:spec_leaks_into_later_call", f"{t} computed without any user spec differs after earlier calls that passed user specs "
+                                                         f"(a user specification leaked into a later call)")
+                break
+        res["later_call_rechecks"] = len(agg_nodes)
+    except Exception as e:  # noqa: BLE001
+        viol(f"later_call:{type(e).__name__}", f"aggregates cannot be recomputed after calls with user specs: {str(e)[:150]}")
     for f in contracts.drain():
         res["violations"].append(dict(key=f"{f['contract']}:definition", what=f"during a system run at {item['date']}: {f['what']}", date=item["date"]))
     res["contract_evaluations"] = dict(contracts.COUNTS)
@@ -324,6 +337,7 @@ def summarize(results, tier, seed):
         contract_evaluations=ev, direct_calls_by_primitive=byp, loud_rejections=loud,
         api_aggregation_nodes_checked=sum(r["agg_nodes"] for r in sysr), api_nodes_by_spec_origin=origin,
         suffix_requests=sum(r["suffix_requests"] for r in sysr), user_spec_runs=sum(r["user_specs"] for r in sysr),
+        aggregates_rechecked_after_user_spec_calls=sum(r.get("later_call_rechecks", 0) for r in sysr),
         samples=[s for r in ok[:2] for s in r["samples"][:1]] + [s for r in sysr[:1] for s in r["samples"][:1]],
     )
     return dict(coverage=cov, violations=viol, inconclusive=inconclusive,
